@@ -507,7 +507,7 @@ def unit_hmacgen(ctx):
     rbrng.selftest(lib)
     hmac = rbrng.lib_hmac(lib)
     cases = []
-    for klen in ctx.params["keylens"]:
+    for klen in ctx.params["keylens"] * ctx.params.get("reps", 1):
         for ivlen in HMAC_IVLENS:
             for api in ("rand", "steps"):
                 nb = rng.randrange(1, 6)
@@ -861,7 +861,15 @@ def unit_ocra(ctx):
     hmac = rbrng.lib_hmac(lib)
     lo, hi = ctx.params["lo"], ctx.params["hi"]
     cases = [gen_ocra(rng, i) for i in range(lo, hi)]
-    if ctx.params.get("rejects"):
+    if ctx.params.get("edge"):
+        # The three cases that abort a debug build on the current tree come first: a crashed worker loses the class
+        # counts of its segment, so nothing else may precede them in this job.
+        # (1) p and s adjacent inside one allocation (fields of a caller's struct): admissible, trips F16's self-check
+        cases.append({"op": "OCRA", "api": "adjacent-p-s", "suite": "OCRA-1:HOTP-HBELT-6:QN08-PHBELT-S064", "key": rb(rng, 32),
+                      "q": b"12345678", "p": rb(rng, 32), "s": rb(rng, 64)})
+        # (2, 3) t is "don't care" when the suite has no T field: botp.h only requires t != TIME_ERR if the suite uses t
+        for api in ("unused-t=TIME_ERR:rand", "unused-t=TIME_ERR:steps"):
+            cases.append({"op": "OCRA", "api": api, "suite": "OCRA-1:HOTP-HBELT-6:QN08", "key": rb(rng, 32), "q": b"12345678"})
         for s in BAD_SUITES:
             if rbotp.parse_suite(s) is not None:
                 raise Harness("generator: model accepts bad suite %r" % s)
@@ -873,12 +881,6 @@ def unit_ocra(ctx):
             cases.append({"op": "OCRA", "api": "bad-time", "suite": s, "key": rb(rng, 32), "q": b"12345678"})
         for s in ("OCRA-1:HOTP-HBELT-6:QN08", "OCRA-1:HOTP-HBELT-4:QN08", "OCRA-1:HOTP-HBELT-9:QN08"):
             cases.append({"op": "OCRA", "api": "bad-otp-length", "suite": s, "key": rb(rng, 32), "q": b"12345678"})
-        # p and s adjacent inside one allocation (fields of a caller's struct): admissible, trips F16's self-check
-        cases.append({"op": "OCRA", "api": "adjacent-p-s", "suite": "OCRA-1:HOTP-HBELT-6:QN08-PHBELT-S064", "key": rb(rng, 32),
-                      "q": b"12345678", "p": rb(rng, 32), "s": rb(rng, 64)})
-        # t is "don't care" when the suite has no T field: botp.h only requires t != TIME_ERR if the suite uses t
-        for api in ("unused-t=TIME_ERR:rand", "unused-t=TIME_ERR:steps"):
-            cases.append({"op": "OCRA", "api": api, "suite": "OCRA-1:HOTP-HBELT-6:QN08", "key": rb(rng, 32), "q": b"12345678"})
     import random
     keep = lib.botpOCRA_keep()
     feats = {}
@@ -893,11 +895,16 @@ def unit_ocra(ctx):
         self-check cannot fire (otherwise dozens of aborts per run drown the value checks); the defect itself is
         demonstrated, deterministically, by the case 'ocra:adjacent-p-s' below."""
         cp = lib.mk(ctr) if ctr is not None else nul()
-        sp = lib.mk(s) if s else nul()
-        for _ in range(16):
-            pp = lib.mk(p) if p is not None else nul()
-            if not s or pp + len(s) <= sp or pp >= sp + keep:
-                return cp, pp, sp
+        P, S = [], []
+        for i in range(400):        # allocators hand out neighbours in either direction: alternate fresh candidates
+            if i % 2 == 0:
+                S.append(lib.mk(s) if s else nul())
+            else:
+                P.append(lib.mk(p) if p is not None else nul())
+            for pp in P:
+                for sp in S:
+                    if not s or pp + len(s) <= sp or pp >= sp + keep:
+                        return cp, pp, sp
         raise Harness("could not place p and s apart")
 
     for c in cases:
@@ -1055,29 +1062,27 @@ def jobs(tier, scale=1.0):
         return max(lo, int((quick if q else thorough) * scale))
     js = []
     for k in range(2):
-        js.append({"unit": "c03:unit_bashf", "params": {"chunk": k, "n": n(400, 6000, 12)}})
+        js.append({"unit": "c03:unit_bashf", "params": {"chunk": k, "n": n(3000, 20000, 12)}})
     levels = list(range(16, 257, 16))
     for k in range(4):
-        js.append({"unit": "c03:unit_hash", "params": {"chunk": k, "levels": levels[k::4], "reps": n(3, 40)}})
+        js.append({"unit": "c03:unit_hash", "params": {"chunk": k, "levels": levels[k::4], "reps": n(12, 60)}})
     for k in range(6 if q else 12):
-        js.append({"unit": "c03:unit_prg", "params": {"chunk": k, "rounds": n(5, 40)}})
+        js.append({"unit": "c03:unit_prg", "params": {"chunk": k, "rounds": n(40, 120)}})
     nch = 2 if q else 4
     for k in range(nch):
-        js.append({"unit": "c03:unit_ctr", "params": {"chunk": k, "nchunks": nch, "reps": n(1, 8)}})
-    if q:
-        js.append({"unit": "c03:unit_hmacgen", "params": {"chunk": 0, "keylens": [0, 1, 16, 31, 32, 33, 48, 63, 64, 65, 80, 96]}})
-    else:
-        for k in range(4):
-            kl = list(range(k, 97, 4))
-            if scale < 1:
-                kl = kl[::max(1, int(1 / scale))]
-            js.append({"unit": "c03:unit_hmacgen", "params": {"chunk": k, "keylens": kl}})
-    js.append({"unit": "c03:unit_dt", "params": {"chunk": 0, "reps": n(1, 6)}})
-    for k in range(1 if q else 4):
-        js.append({"unit": "c03:unit_hotp", "params": {"chunk": k, "reps": n(3, 12)}})
-    per = n(288, 1152, 96)
+        js.append({"unit": "c03:unit_ctr", "params": {"chunk": k, "nchunks": nch, "reps": n(4, 16)}})
     for k in range(2 if q else 4):
-        js.append({"unit": "c03:unit_ocra", "params": {"chunk": k, "lo": k * per, "hi": (k + 1) * per, "rejects": k == 0}})
+        kl = list(range(k, 97, 2 if q else 4))       # all key lengths 0..96, spread over the jobs
+        if scale < 1:
+            kl = kl[::max(1, int(1 / scale))]
+        js.append({"unit": "c03:unit_hmacgen", "params": {"chunk": k, "keylens": kl, "reps": n(1, 4)}})
+    js.append({"unit": "c03:unit_dt", "params": {"chunk": 0, "reps": n(2, 8)}})
+    for k in range(1 if q else 4):
+        js.append({"unit": "c03:unit_hotp", "params": {"chunk": k, "reps": n(12, 40)}})
+    per = n(960, 3840, 96)
+    for k in range(2 if q else 4):
+        js.append({"unit": "c03:unit_ocra", "params": {"chunk": k, "lo": k * per, "hi": (k + 1) * per}})
+    js.append({"unit": "c03:unit_ocra", "params": {"chunk": "edge", "lo": 0, "hi": 0, "edge": True}})
     return js
 
 
